@@ -200,3 +200,26 @@ func genDep(g *core.G, maxLen int) {
 		}
 	}
 }
+
+// letters outside ASCII whose case mapping is Go's unicode.ToLower (simple mapping, rune by rune)
+var caseNames = []string{"\u00c9", "\u00e9", "\u212a", "k", "K", "\u0130x", "ix", "Ix", "\u01c5", "\u01c6", "\u023a", "\u2c65", "m::\u0130", "m::i", "\u03a3\u03c2", "\u03c3\u03c2"}
+
+// genCase: every history of length <= 2 over a chain of three loaders and four spellings of two names that differ in
+// letter case only beyond ASCII (É é; the Kelvin sign and k)
+func genCase(g *core.G) {
+	var alpha []string
+	for l := 0; l < 3; l++ {
+		for _, n := range []string{"\u00c9", "\u00e9", "\u212a", "k"} {
+			x := nm("type", n, "r")
+			alpha = append(alpha, fmt.Sprintf("(load %d %s)", l, x), fmt.Sprintf("(def %d %s (t 1))", l, x),
+				fmt.Sprintf("(def %d %s (t 2))", l, x), fmt.Sprintf("(has %d %s)", l, x))
+		}
+		alpha = append(alpha, fmt.Sprintf("(disc %d all)", l))
+	}
+	for _, a := range alpha {
+		g.Emit("hist (tree (p -1) (p 0) (p 1)) (steps " + a + ")")
+		for _, b := range alpha {
+			g.Emit("hist (tree (p -1) (p 0) (p 1)) (steps " + a + " " + b + ")")
+		}
+	}
+}
